@@ -138,7 +138,9 @@ static std::string probe(const std::string& name, const std::vector<std::string>
     if (name == "make_resistant_length") {
         PoolFixture f;
         std::vector<int> e((size_t)std::stoi(arg(0)), 0), m((size_t)std::stoi(arg(1)), 0);
-        f.pool.make_resistant_at(0, 0, 1, e, 1, m);
+        // optional third argument: the infected count of the request (0: a cell without infection)
+        int inf = arg(2).empty() ? 1 : std::stoi(arg(2));
+        f.pool.make_resistant_at(0, 0, 1, e, inf, m);
         return std::to_string(f.R(0, 0));
     }
     if (name == "make_resistant_too_many") {
